@@ -10,6 +10,12 @@ def srvOfStr : String → Except String Server
   | "legacy" => pure .legacySse | "stdio" => pure .stdio
   | s => throw s!"server {s}"
 
+/-- driver-level ops: a model op, or "settle m" = the waiting ListRoots of m returns: `complete` if its channel holds an
+    answer, else its context is cancelled (`cancel`). -/
+inductive DOp where
+  | op (o : Op)
+  | settle (m : Nat)
+
 def opOfJson (j : Json) : Except String Op := do
   match ← getStr j "t" with
   | "newSession" => pure .newSession
@@ -27,6 +33,11 @@ def opOfJson (j : Json) : Except String Op := do
   | "timeout" => pure (.timeout (← getNat j "m"))
   | "cancel" => pure (.cancel (← getNat j "m"))
   | t => throw s!"op {t}"
+
+def dopOfJson (j : Json) : Except String DOp := do
+  match ← getStr j "t" with
+  | "settle" => pure (.settle (← getNat j "m"))
+  | _ => pure (.op (← opOfJson j))
 
 def errStr : Err → String
   | .stateless => "stateless" | .noStream => "noStream" | .notFound => "notFound" | .notInitialized => "notInitialized"
@@ -59,8 +70,20 @@ def handle (op : String) (j : Json) : Except String Json := do
   | "run" =>
     let srv ← srvOfStr (← getStr j "srv")
     let start ← getNat j "start"
-    let ops ← (← getArr j "ops").toList.mapM opOfJson
-    let (s, rets) := run srv f (init srv start) ops
+    let ops ← (← getArr j "ops").toList.mapM dopOfJson
+    let rec go (s : St) : List DOp → St × List Ret
+      | [] => (s, [])
+      | .op o :: os =>
+        let (s1, r) := step srv f s o
+        let (s2, rs) := go s1 os
+        (s2, r :: rs)
+      | .settle m :: os =>
+        let (s1, r) := match step srv f s (.complete m) with
+          | (_, .err .disabled) => step srv f s (.cancel m)
+          | x => x
+        let (s2, rs) := go s1 os
+        (s2, r :: rs)
+    let (s, rets) := go (init srv start) ops
     let sids := dedup (s.delivered.map (·.1))
     let ob := sids.map (fun (a : Nat) => (s!"{a}", Json.mkObj [("notif", natArr (outboxTags s a .notif)), ("req", natArr (outboxTags s a .req))]))
     pure (Json.mkObj [("rets", Json.arr (rets.map (fun r => Json.str (retStr r))).toArray),
